@@ -159,6 +159,11 @@ def run(ctx):
                          "length 3(4) over the syntax alphabet, random longer ones; decode: every concatenation of <= 2 (3) escape atoms; "
                          "a subset embedded in six statement forms and parsed; distinct = byte strings / literals")
     ctx.exhaustive = not q
+    # history freedom of the functions of their input behind this property (Pure.tla)
+    from vt.checks import xpure
+
+    xpure.pure_part(ctx, xpure.entries_for("C12"))
+
 
 
 def lex_with_library(c2profile, text):
